@@ -436,7 +436,13 @@ def handleLine (st : State) (line : String) : State × String :=
     match getPolicy st pid, unhexField el, unhexField val, unhexField res with
     | some p, some el, some val, some res =>
       let m := p.sanitizeStyles val el
-      (st, verdict (m == res) (hexField m) [] [])
+      -- C10 fixes what is left of a cleanly parseable style: the allowed declarations, in order.  The
+      -- declarations of the implementation's result are compared with those the characterised
+      -- `sanitizeStyles` keeps (as property / value lists, not as bytes)
+      let decls := fun (b : Bytes) => (Css.parseDeclarations (b ++ [59])).map fun ds => ds.map fun d => (d.property, d.value)
+      let clean := (Css.parseDeclarations (val ++ [59])).isSome
+      let bad := clean && !p.allowUnsafe && decls m != decls res
+      (st, verdict (m == res) (hexField m) (if bad then ["C10"] else []) [])
     | _, _, _, _ => (st, "bad-style")
   | [kindw, name, val, impl] =>
     if kindw == "mat" || kindw == "matex" then
